@@ -67,7 +67,9 @@ def handlers : List (String × Handler) := [
   ("field.render", fun args => match vec? args with
     | some v =>
       if !v.valid then "invalid"
-      else "ok " ++ irStr (fromSchema v) ++ " | " ++ shapeStr (render v) ++ " | " ++ semStr (sem v)
+      else
+        let key := match sortKey v.kind (fromSchema v) with | none => "-" | some x => b x
+        "ok " ++ irStr (fromSchema v) ++ " key=" ++ key ++ " | " ++ shapeStr (render v) ++ " | " ++ semStr (sem v)
     | none => "err args"),
   ("field.templateok", fun
     | [k] => match kind? k with
